@@ -1,4 +1,4 @@
-Require Import OPC.Uni OPC.Order OPC.Registry OPC.gen.GenLoops OPC.OrderThm OPC.Retry OPC.RetryThm OPC.RegistryThm.
+Require Import OPC.Uni OPC.Order OPC.Registry OPC.gen.GenLoops OPC.gen.GenImports OPC.OrderThm OPC.Retry OPC.RetryThm OPC.RegistryThm.
 From Coq Require Import NArith List Bool Permutation. Import ListNotations. Open Scope N_scope.
 
 (* Python's sorted(S) on a set of strings gives one list for every enumeration order of S (union type strings, response_type) *)
@@ -114,3 +114,17 @@ Print Assumptions C12_failed_attempt_no_trace.
 Theorem C12_registries_are_persistent : gen_registries_persistent = true.
 Proof. exact registries_are_persistent. Qed.
 Print Assumptions C12_registries_are_persistent.
+
+(* the case-insensitive sort key is injective on the regenerated pool of fixed import lines; sets drawn from it are emitted in one order *)
+Theorem C12_import_pool_keys_distinct : keys_distinct lower gen_import_pool = true.
+Proof. exact import_pool_keys_distinct. Qed.
+Print Assumptions C12_import_pool_keys_distinct.
+
+Theorem C12_import_probe_complete : gen_import_probe_complete = true.
+Proof. exact import_probe_complete. Qed.
+Print Assumptions C12_import_probe_complete.
+
+Theorem C12_pool_imports_sorted_invariant : forall l l', NoDup l -> (forall x, In x l -> In x gen_import_pool) ->
+  Permutation l l' -> jinja_sort l = jinja_sort l'.
+Proof. exact pool_imports_sorted_invariant. Qed.
+Print Assumptions C12_pool_imports_sorted_invariant.
